@@ -9,6 +9,8 @@ What the transformation changes (complete list; counts are reported in the evide
   T4  `"const".format(...)` / f-strings -> `__fxpv_pyc__.format_/fstring_`
   T5  `while` loops get `__fxpv_pyc__.loop_tick(<id>)` as first body statement (unwinding bound)
   T6  listed single-assignment `if` statements are if-converted (sidecar list, see IFCONV)
+  T7  every function body gets `__fxpv_pyc__.enter_('<module>:<qualname>')` as first statement (a no-op that
+      records which real functions were executed on symbolic data; reported in the evidence)
 Nothing is dropped.
 """
 import ast
@@ -23,6 +25,7 @@ REPO = os.environ.get('FXPV_REPO', '/repo')
 SHADOW = 'fxpmath_sym'
 TRANSFORM_COUNTS = {}
 SOURCE_SHA = {}
+ALL_FUNCTIONS = set()          # '<module>:<qualname>' of every function definition in utils / objects / functions
 
 # T6: (module, function qualname) -> True : `if c: x = e` (no else) inside while loops of that function
 IFCONV = {('objects', 'set_best_sizes')}
@@ -32,7 +35,7 @@ class _T(ast.NodeTransformer):
     def __init__(self, modname, with_np):
         self.modname = modname
         self.with_np = with_np
-        self.counts = {'T1': 0, 'T2': 0, 'T4': 0, 'T5': 0, 'T6': 0}
+        self.counts = {'T1': 0, 'T2': 0, 'T4': 0, 'T5': 0, 'T6': 0, 'T7': 0}
         self.func_stack = []
         self.loop_n = 0
         self.in_while = 0
@@ -44,10 +47,25 @@ class _T(ast.NodeTransformer):
                                                 value=ast.Name(id='__fxpv_npc__', ctx=ast.Load())), node)
         return node
 
-    def visit_FunctionDef(self, node):
+    def visit_ClassDef(self, node):
         self.func_stack.append(node.name)
         self.generic_visit(node)
         self.func_stack.pop()
+        return node
+
+    def visit_FunctionDef(self, node):
+        self.func_stack.append(node.name)
+        self.generic_visit(node)
+        qual = '%s:%s' % (self.modname, '.'.join(self.func_stack))
+        self.func_stack.pop()
+        if self.with_np:
+            ALL_FUNCTIONS.add(qual)
+            self.counts['T7'] += 1
+            enter = ast.Expr(value=ast.Call(func=ast.Attribute(value=ast.Name(id='__fxpv_pyc__', ctx=ast.Load()), attr='enter_', ctx=ast.Load()),
+                                            args=[ast.Constant(value=qual)], keywords=[]))
+            at = 1 if (node.body and isinstance(node.body[0], ast.Expr) and isinstance(node.body[0].value, ast.Constant)
+                       and isinstance(node.body[0].value.value, str)) else 0
+            node.body.insert(at, ast.copy_location(enter, node.body[0]))
         return node
 
     def visit_Call(self, node):
